@@ -231,6 +231,11 @@ def kmeans_init(draw, X, k, scale, corner=False):
     if method == "array":
         idx = r.choice(X.shape[0], size=k, replace=X.shape[0] < k)
         init = X[idx] + scale * r.normal(0, 0.3, (k, X.shape[1]))
+        if scale >= 1 and choice(draw, [False, False, True]):
+            # an explicit array of INTEGER dtype is a valid initial centroid set too
+            cand = np.rint(init).astype(np.int64)
+            if len({tuple(row) for row in cand.tolist()}) == k:
+                init = cand
         return {"method": "array", "init": init, "seed": 0}
     if method == "corner":
         # all initial centroids in one corner of the data: many iterations before convergence
@@ -260,6 +265,8 @@ def fa_case(draw, jfa=None, max_sessions=5, maxC=3, maxF=3, d_alive=None):
     U = sd[:, None] * u_scale * r.normal(0, 1, (C * F, rU))
     V = sd[:, None] * v_scale * r.normal(0, 1, (C * F, rV)) if jfa else None
     D = sd * d_scale * np.exp(r.uniform(-1, 1, C * F))
+    if choice(draw, [False, False, True]):
+        D = D * r.choice([-1.0, 1.0], C * F)  # the model depends on D only through D*z: any sign is valid
     H = integer(draw, 1, max_sessions)
     sessions = [fractional_stats(draw, C, F, ubm["means"], ubm["variances"], n_frames=integer(draw, 1, 15), r=r,
                                  zero_prob=choice(draw, [0.0, 0.0, 0.3]))
